@@ -89,7 +89,7 @@ def handlePrevState (env : Env) (met : MetCallResult) (t : Tetraplet) (argHash :
   | .requestSentBy _ => sentByOther met t
   | .executed value => do
     let ah ← unwrapHash "prev_result_handler.rs:handle_prev_state:argument_hash.unwrap()(Executed)" argHash
-    modifyER fun c => populateFromData env c value ah t met.tracePos out
+    modifyER fun c => populateFromData env c value ah t met.tracePos out met.source
     modifyCtx fun c =>
       let c := match value with
         | .scalar cid | .stream cid _ => c.recordCallCid t.peerPk cid
